@@ -175,8 +175,9 @@ type phase struct {
 	sets     [][]element
 	urls     func(E []element) []int
 	modes    []mwMode
-	accept   bool // repeat requests answered 404 with every Accept type
-	useAfter bool // also register the middleware after the handlers
+	front    frontKind // goa runtime middleware mounted in front of the router for this phase
+	accept   bool      // repeat requests answered 404 with every Accept type
+	useAfter bool      // also register the middleware after the handlers
 }
 
 var phaseSeq int
@@ -228,7 +229,8 @@ func (u *universe) runPhase(c *core.Ctx, coll *collector, ph phase) {
 							res := serveDirect(m, uc.tmpl[mi][ai], scr)
 							execs++
 							pos++
-							fails, outcome := u.judge(E, mode, mi, ui, res)
+							fails, outcome := u.judge(E, mode, ph.front, mi, ui, res)
+							notFound := strings.HasPrefix(outcome, "notfound")
 							if mode == mwPre && strings.HasPrefix(outcome, "dispatched") {
 								if uc.RawPathSet {
 									local.preCompared[1]++
@@ -239,22 +241,28 @@ func (u *universe) runPhase(c *core.Ctx, coll *collector, ph phase) {
 							if useAfter {
 								outcome = "use-after-handle: " + outcome
 							}
-							if u.name != "" {
+							if u.name != "" || ph.front != frontNone {
 								l, ok := label[outcome]
 								if !ok {
-									l = u.name + ": " + outcome
+									l = outcome
+									if ph.front != frontNone {
+										l = "front=" + frontNames[ph.front] + ": " + l
+									}
+									if u.name != "" {
+										l = u.name + ": " + l
+									}
 									label[outcome] = l
 								}
 								outcome = l
 							}
 							local.outcomes[outcome]++
-							if ai == 0 && ph.accept && uc.Probe && strings.HasPrefix(outcome, "notfound") {
+							if ai == 0 && ph.accept && uc.Probe && notFound {
 								nacc = len(accepts)
 							}
 							for _, f := range fails {
 								mi, ui, ai := mi, ui, ai
 								local.fail(int64(ph.idx)<<56|int64(si)<<28|pos, f, func() caseDesc {
-									cd := u.describe(E, mode, mi, ui, ai, false)
+									cd := u.describe(E, mode, ph.front, mi, ui, ai, false)
 									cd.UseAfter = useAfter
 									return cd
 								})
@@ -264,16 +272,16 @@ func (u *universe) runPhase(c *core.Ctx, coll *collector, ph phase) {
 				}
 			}
 			for _, mode := range ph.modes {
-				m, pan := u.buildMux(E, mode, false)
+				m, pan := u.buildMux(E, mode, false, ph.front)
 				if pan != "" {
 					local.fail(int64(ph.idx)<<56|int64(si)<<28, failure{"register panic middleware=" + mwNames[mode], func() string { return "registering a legal pattern set panicked: " + pan + " [" + setKey(u, E) + "]" }},
-						func() caseDesc { return u.describe(E, mode, 0, urls[0], 0, false) })
+						func() caseDesc { return u.describe(E, mode, ph.front, 0, urls[0], 0, false) })
 					continue
 				}
 				runWith(m, mode, false)
 			}
 			if ph.useAfter {
-				m, pan := u.buildMux(E, mwPre, true)
+				m, pan := u.buildMux(E, mwPre, true, ph.front)
 				if pan != "" {
 					// Use after the first Handle: the statement says what middlewares observe,
 					// not that Use must be accepted at this point; recorded, not asserted.
@@ -292,7 +300,7 @@ func (u *universe) runPhase(c *core.Ctx, coll *collector, ph phase) {
 		smu.Unlock()
 		coll.merge(local)
 	})
-	c.Note("phase "+ph.name, map[string]any{"sets": len(ph.sets), "requests": totalExec, "use_after_handle_panics": totalUse, "middleware_modes": modeNames(ph.modes)})
+	c.Note("phase "+ph.name, map[string]any{"sets": len(ph.sets), "requests": totalExec, "use_after_handle_panics": totalUse, "middleware_modes": modeNames(ph.modes), "front": frontNames[ph.front]})
 	if skipped > 0 {
 		c.Incomplete(fmt.Sprintf("phase %s: deadline reached, %d of %d chunks (of %d sets each) not explored", ph.name, skipped, nchunks, chunk))
 	}
@@ -352,7 +360,7 @@ func (u *universe) serverPhase(c *core.Ctx, coll *collector, ph phase) {
 		defer tr.CloseIdleConnections()
 		urls := ph.urls(E)
 		for _, mode := range ph.modes {
-			m, pan := u.buildMux(E, mode, false)
+			m, pan := u.buildMux(E, mode, false, ph.front)
 			if pan != "" {
 				continue // reported by the direct phases
 			}
@@ -373,17 +381,21 @@ func (u *universe) serverPhase(c *core.Ctx, coll *collector, ph phase) {
 						}
 						execs++
 						pos++
-						fails, outcome := u.judge(E, mode, mi, ui, res)
+						fails, outcome := u.judge(E, mode, ph.front, mi, ui, res)
+						notFound := strings.HasPrefix(outcome, "notfound")
+						if ph.front != frontNone {
+							outcome = "front=" + frontNames[ph.front] + ": " + outcome
+						}
 						if u.name != "" {
 							outcome = u.name + ": " + outcome
 						}
 						local.outcomes["real-server: "+outcome]++
-						if ai == 0 && ph.accept && uc.Probe && strings.HasPrefix(outcome, "notfound") {
+						if ai == 0 && ph.accept && uc.Probe && notFound {
 							nacc = len(accepts)
 						}
 						for _, f := range fails {
 							mi, ui, ai := mi, ui, ai
-							local.fail(int64(ph.idx)<<56|int64(si)<<28|pos, f, func() caseDesc { return u.describe(E, mode, mi, ui, ai, true) })
+							local.fail(int64(ph.idx)<<56|int64(si)<<28|pos, f, func() caseDesc { return u.describe(E, mode, ph.front, mi, ui, ai, true) })
 						}
 					}
 				}
@@ -396,7 +408,7 @@ func (u *universe) serverPhase(c *core.Ctx, coll *collector, ph phase) {
 		smu.Unlock()
 		coll.merge(local)
 	})
-	c.Note("phase "+ph.name, map[string]any{"sets": len(ph.sets), "requests": total})
+	c.Note("phase "+ph.name, map[string]any{"sets": len(ph.sets), "requests": total, "middleware_modes": modeNames(ph.modes), "front": frontNames[ph.front]})
 	if skipped > 0 {
 		c.Incomplete(fmt.Sprintf("phase %s: deadline reached, %d of %d sets not explored", ph.name, skipped, len(ph.sets)))
 	}
@@ -530,12 +542,18 @@ func runCase(cd caseDesc) ([]failure, string, error) {
 	u.urls = []*urlCase{uc}
 	u.strict = make([][]bool, len(u.pats))
 	u.lenient = make([][]bool, len(u.pats))
+	u.empty = make([][]bool, len(u.pats))
 	for pi := range u.pats {
 		ok, _ := match(&u.pats[pi], uc.RawSegs, false)
 		u.strict[pi] = []bool{ok}
+		u.empty[pi] = []bool{matchEmptyCapture(&u.pats[pi], uc.RawSegs)}
 		u.lenient[pi] = []bool{ok || lenientMatch(&u.pats[pi], uc.RawSegs, uc.DecRaw, uc.DecSegs)}
 	}
-	m, pan := u.buildMux(E, mode, cd.UseAfter)
+	front := frontByName(cd.Front)
+	if front < 0 {
+		return nil, "", fmt.Errorf("unknown front middleware %q", cd.Front)
+	}
+	m, pan := u.buildMux(E, mode, cd.UseAfter, front)
 	if pan != "" {
 		return []failure{{"register panic middleware=" + mwNames[mode], func() string { return pan }}}, "panic", nil
 	}
@@ -552,7 +570,7 @@ func runCase(cd caseDesc) ([]failure, string, error) {
 	} else {
 		res = serveDirect(m, r, newScratch())
 	}
-	fails, outcome := u.judge(E, mode, mi, 0, res)
+	fails, outcome := u.judge(E, mode, front, mi, 0, res)
 	obsJSON, _ := json.Marshal(res.o)
 	return fails, fmt.Sprintf("%s status=%d content-type=%q Path=%q RawPath=%q observed=%s body=%q", outcome, res.status, res.ct, uc.Path, uc.RawPath, obsJSON, string(res.body)), nil
 }
@@ -629,6 +647,11 @@ func run(c *core.Ctx) {
 	c.Assume("Use called after the first Handle panics inside chi (\"all middlewares must be defined before routes\"); the statement does not say Use must be accepted then, so this is recorded as an outcome, not a violation")
 	c.Assume("violation 'cases' printed by the core count distinct signatures once; exact per-signature request counts are in coverage.violation_request_counts")
 
+	if os.Getenv("C16_ONLY_CONSTRUCTORS") != "" { // development aid: only the generated path constructors (seconds)
+		runConstructors(c)
+		c.Incomplete("C16_ONLY_CONSTRUCTORS is set: the router universes were not explored")
+		return
+	}
 	stop := timing("universe")
 	full := genPatterns([]seg{litA, litB, parX, parY}, []seg{litA, litB, parX, parY, catchW, catchV}, 3)
 	u, err := newUniverse(full, menus{single: singleFull, catch: catchFull, singleProb: singleProb, catchProb: catchProb, encoders: encMin,
@@ -691,10 +714,16 @@ func run(c *core.Ctx) {
 		return s
 	}
 	probe := func([]element) []int { return u.probe }
-	u.runPhase(c, coll, phase{name: "size1 full-alphabet all-urls", sets: sets(aFull, 1), urls: all, modes: modes, accept: true, useAfter: true})
+	f1 := sets(aFull, 1)
+	u.runPhase(c, coll, phase{name: "size1 full-alphabet all-urls", sets: f1, urls: all, modes: modes, accept: true, useAfter: true})
+	// environment dimension: goa's SmartRedirectSlashes mounted with Use in front of the router
 	if c.Thorough() {
-		u.runPhase(c, coll, phase{name: "size2 full-alphabet all-urls", sets: sets(aFull, 2), urls: all, modes: modes, useAfter: true})
-		u.runPhase(c, coll, phase{name: "size3 middle-alphabet probe-urls", sets: sets(aMid, 3), urls: probe, modes: modes})
+		u.runPhase(c, coll, phase{name: "size1 full-alphabet all-urls front=smart-redirect-slashes", sets: f1, urls: all, modes: []mwMode{mwNone, mwPre}, front: frontSRS})
+		f2, m3 := sets(aFull, 2), sets(aMid, 3)
+		u.runPhase(c, coll, phase{name: "size2 full-alphabet all-urls", sets: f2, urls: all, modes: modes, useAfter: true})
+		u.runPhase(c, coll, phase{name: "size2 full-alphabet own+probe-urls front=smart-redirect-slashes", sets: f2, urls: ownPlusProbe, modes: []mwMode{mwNone, mwPre}, front: frontSRS})
+		u.runPhase(c, coll, phase{name: "size3 middle-alphabet probe-urls", sets: m3, urls: probe, modes: modes})
+		u.runPhase(c, coll, phase{name: "size3 middle-alphabet probe-urls front=smart-redirect-slashes", sets: m3, urls: probe, modes: []mwMode{mwNone}, front: frontSRS})
 		for k := 4; k <= 6; k++ {
 			u.runPhase(c, coll, phase{name: fmt.Sprintf("size%d reduced-alphabet reduced-probe-urls", k), sets: sets(aRed, k), urls: rprobe, modes: modes})
 		}
@@ -703,8 +732,12 @@ func run(c *core.Ctx) {
 			"size 3 complete over the middle alphabet x the full alphabet's probe URLs; sizes 4-6 complete over the reduced alphabet x its probe URLs; "+
 			"real httptest.Server+http.Client pass over all size-1 sets of the full alphabet (own URLs with full menus + probe URLs)")
 	} else {
-		u.runPhase(c, coll, phase{name: "size2 full-alphabet own+probe-urls", sets: sets(aFull, 2), urls: ownPlusProbe, modes: []mwMode{mwNone, mwPre}, useAfter: true})
-		u.runPhase(c, coll, phase{name: "size3 reduced-alphabet middle-probe-urls", sets: sets(aRed, 3), urls: mprobe, modes: modes})
+		f2, r3 := sets(aFull, 2), sets(aRed, 3)
+		u.runPhase(c, coll, phase{name: "size1 full-alphabet all-urls front=smart-redirect-slashes", sets: f1, urls: all, modes: []mwMode{mwNone}, front: frontSRS})
+		u.runPhase(c, coll, phase{name: "size2 full-alphabet own+probe-urls", sets: f2, urls: ownPlusProbe, modes: []mwMode{mwNone, mwPre}, useAfter: true})
+		u.runPhase(c, coll, phase{name: "size2 middle-alphabet probe-urls front=smart-redirect-slashes", sets: sets(aMid, 2), urls: probe, modes: []mwMode{mwNone}, front: frontSRS})
+		u.runPhase(c, coll, phase{name: "size3 reduced-alphabet middle-probe-urls", sets: r3, urls: mprobe, modes: modes})
+		u.runPhase(c, coll, phase{name: "size3 reduced-alphabet middle-probe-urls front=smart-redirect-slashes", sets: r3, urls: mprobe, modes: []mwMode{mwNone}, front: frontSRS})
 		u.serverPhase(c, coll, phase{name: "real-server size1 reduced-alphabet own+probe-urls", sets: sets(aRed, 1), urls: ownPlusProbe, modes: []mwMode{mwNone, mwPre}, accept: true})
 		c.Note("bounds", "sets: size 1 complete over the full alphabet x every URL of the full value menus, three middleware modes; size 2 complete over the full alphabet x "+
 			"(own URLs with full menus + probe URLs), middleware modes none and ResolvePattern-before-next; size 3 complete over the reduced alphabet x the middle alphabet's probe URLs; "+
@@ -729,15 +762,27 @@ func run(c *core.Ctx) {
 		}
 		return out
 	}
-	lu.runPhase(c, coll, phase{name: "literal-encoding size1 all-urls", sets: lsets(1), urls: lall, modes: modes, accept: true})
+	l1, l2 := lsets(1), lsets(2)
+	lu.runPhase(c, coll, phase{name: "literal-encoding size1 all-urls", sets: l1, urls: lall, modes: modes, accept: true})
+	if !c.Thorough() {
+		lu.runPhase(c, coll, phase{name: "literal-encoding size1 all-urls front=smart-redirect-slashes", sets: l1, urls: lall, modes: []mwMode{mwNone, mwPre}, front: frontSRS})
+	}
+	lu.runPhase(c, coll, phase{name: "literal-encoding size1 all-urls front=debug", sets: l1, urls: lall, modes: []mwMode{mwNone, mwPre}, front: frontDebug})
 	if c.Thorough() {
-		lu.runPhase(c, coll, phase{name: "literal-encoding size2 all-urls", sets: lsets(2), urls: lall, modes: modes})
-		lu.serverPhase(c, coll, phase{name: "real-server literal-encoding size1 own+probe-urls", sets: lsets(1), urls: lu.ownPlusProbe, modes: modes, accept: true})
+		lu.runPhase(c, coll, phase{name: "literal-encoding size1 all-urls front=smart-redirect-slashes", sets: l1, urls: lall, modes: modes, front: frontSRS, accept: true})
+		lu.runPhase(c, coll, phase{name: "literal-encoding size2 all-urls", sets: l2, urls: lall, modes: modes})
+		lu.runPhase(c, coll, phase{name: "literal-encoding size2 all-urls front=smart-redirect-slashes", sets: l2, urls: lall, modes: modes, front: frontSRS})
+		lu.runPhase(c, coll, phase{name: "literal-encoding size2 own+probe-urls front=debug", sets: l2, urls: lu.ownPlusProbe, modes: []mwMode{mwNone, mwPre}, front: frontDebug})
+		lu.serverPhase(c, coll, phase{name: "real-server literal-encoding size1 own+probe-urls", sets: l1, urls: lu.ownPlusProbe, modes: modes, accept: true})
+		lu.serverPhase(c, coll, phase{name: "real-server literal-encoding size1 own+probe-urls front=smart-redirect-slashes", sets: l1, urls: lu.ownPlusProbe, modes: []mwMode{mwPre}, front: frontSRS})
 		c.Note("bounds literal-encoding", "sets of size 1 and 2 complete over the literal-encoding alphabet x every URL of its universe (complete product pattern x value menu x encoder per wildcard), "+
 			"three middleware modes; real httptest.Server+http.Client pass over all size-1 sets (own + probe URLs)")
 	} else {
-		lu.runPhase(c, coll, phase{name: "literal-encoding size2 own+probe-urls", sets: lsets(2), urls: lu.ownPlusProbe, modes: []mwMode{mwNone, mwPre}})
-		lu.serverPhase(c, coll, phase{name: "real-server literal-encoding size1 own+probe-urls", sets: lsets(1), urls: lu.ownPlusProbe, modes: []mwMode{mwPre}})
+		lu.runPhase(c, coll, phase{name: "literal-encoding size2 own+probe-urls", sets: l2, urls: lu.ownPlusProbe, modes: []mwMode{mwNone, mwPre}})
+		lu.runPhase(c, coll, phase{name: "literal-encoding size2 own+probe-urls front=smart-redirect-slashes", sets: l2, urls: lu.ownPlusProbe, modes: []mwMode{mwPre}, front: frontSRS})
+		lprobe := func([]element) []int { return lu.probe }
+		lu.serverPhase(c, coll, phase{name: "real-server literal-encoding size1 probe-urls", sets: l1, urls: lprobe, modes: []mwMode{mwPre}})
+		lu.serverPhase(c, coll, phase{name: "real-server literal-encoding size1 probe-urls front=smart-redirect-slashes", sets: l1, urls: lprobe, modes: []mwMode{mwNone}, front: frontSRS})
 		c.Note("bounds literal-encoding", "sets of size 1 complete over the literal-encoding alphabet x every URL of its universe, three middleware modes; size 2 complete (every pair, so every pair "+
 			"where one pattern is more general than the other) x (every URL built from the set's own patterns with the complete product value menu x encoder per wildcard + probe URLs), "+
 			"middleware modes none and pre (observer before routing); real httptest.Server+http.Client pass over all size-1 sets with the observer before routing")
@@ -747,12 +792,15 @@ func run(c *core.Ctx) {
 	if pe, okE := lu.patIdx["/é/{y}"]; okE {
 		if pg, okG := lu.patIdx["/{x}/{y}"]; okG {
 			if ui, okU := lu.byRaw["/%C3%A9/a%20b"]; okU {
-				c.Sample(lu.describe([]element{{0, pe}, {0, pg}}, mwPre, 0, ui, 0, false))
+				c.Sample(lu.describe([]element{{0, pe}, {0, pg}}, mwPre, frontNone, 0, ui, 0, false))
 			}
 		}
 	}
 	c.Note("pre_routing_observer_comparisons", map[string]int64{
 		"requests_compared_rawpath_empty": coll.preCompared[0], "requests_compared_rawpath_set": coll.preCompared[1]})
+
+	// ---- third part: the path constructors goa generates (ctor.go)
+	runConstructors(c)
 
 	// outcomes: exact counts as a note; the core's outcome table gets one tick per class
 	oc := map[string]int64{}
@@ -798,7 +846,7 @@ func run(c *core.Ctx) {
 	}
 	// evidence samples: a few ordinary cases
 	for _, E := range [][]element{{aFull.elems[0]}, {aFull.elems[5], aFull.elems[40]}, {aRed.elems[4], aRed.elems[11], aRed.elems[20]}} {
-		c.Sample(u.describe(E, mwPre, 0, u.own[E[len(E)-1].Pat][0], 0, false))
+		c.Sample(u.describe(E, mwPre, frontNone, 0, u.own[E[len(E)-1].Pat][0], 0, false))
 	}
 }
 
@@ -806,6 +854,10 @@ func replay(c *core.Ctx, path string) {
 	var cd caseDesc
 	if err := core.ReplayCase(path, &cd); err != nil {
 		c.HarnessError("cannot load %s: %v", path, err)
+		return
+	}
+	if cd.Ctor != nil {
+		replayCtor(c, cd.Ctor)
 		return
 	}
 	fails, info, err := runCase(cd)
